@@ -198,6 +198,8 @@ enum Side {
 #[derive(Clone, Debug)]
 struct EnfCase {
     side: Side,
+    /// a malformed grpc-timeout value sent instead of a conformant one (must be ignored)
+    malformed: Option<&'static str>,
     caller_ms: Option<u64>,
     configured_ms: Option<u64>,
     latency_ms: u64,
@@ -302,6 +304,9 @@ fn enf_run(c: &EnfCase) -> (EnfOutcome, u64) {
                 if let Some(ms) = c.caller_ms {
                     req.set_timeout(Duration::from_millis(ms));
                 }
+                if let Some(bad) = c.malformed {
+                    req.metadata_mut().insert("grpc-timeout", tonic::metadata::MetadataValue::try_from(bad).unwrap());
+                }
                 let t0 = tokio::time::Instant::now();
                 let r = vnet::within(horizon, client.unary(req)).await;
                 let dt = t0.elapsed().as_millis() as u64;
@@ -331,6 +336,9 @@ fn enf_run(c: &EnfCase) -> (EnfOutcome, u64) {
                 let mut b = http::Request::builder().method("POST").uri("http://c09.test:1/fx.Echo/Unary").header("content-type", "application/grpc").header("te", "trailers");
                 if let Some(ms) = c.caller_ms {
                     b = b.header("grpc-timeout", format!("{ms}m"));
+                }
+                if let Some(bad) = c.malformed {
+                    b = b.header("grpc-timeout", bad);
                 }
                 let req = b.body(http_body_util::Full::new(bytes::Bytes::from(crate::oracle::wire::encode_frame(0, &[1])))).unwrap();
                 let t0 = tokio::time::Instant::now();
@@ -409,15 +417,25 @@ fn enf_cases(tier: Tier) -> Vec<EnfCase> {
                     n += 1;
                     let chops: Vec<usize> = if tier == Tier::Thorough { vec![0, 2, 3] } else { vec![[0, 2, 3][n % 3]] };
                     for chop in chops {
-                        out.push(EnfCase { side, caller_ms, configured_ms, latency_ms, chop });
+                        out.push(EnfCase { side, malformed: None, caller_ms, configured_ms, latency_ms, chop });
                     }
+                }
+            }
+        }
+    }
+    // a malformed caller value is ignored: the configured timeout alone decides
+    for side in [Side::Server, Side::Client] {
+        for bad in ["82f", "+5S", "S", "123456789S", "5 S", "1e3m"] {
+            for configured_ms in [None, Some(50u64)] {
+                for latency_ms in [10u64, 300] {
+                    out.push(EnfCase { side, malformed: Some(bad), caller_ms: None, configured_ms, latency_ms, chop: 0 });
                 }
             }
         }
     }
     for caller_ms in [None, Some(50u64), Some(200)] {
         for latency_ms in [10u64, 100, 300] {
-            out.push(EnfCase { side: Side::Both, caller_ms, configured_ms: None, latency_ms, chop: 0 });
+            out.push(EnfCase { side: Side::Both, malformed: None, caller_ms, configured_ms: None, latency_ms, chop: 0 });
         }
     }
     out
@@ -448,7 +466,7 @@ pub fn property(tier: Tier) -> Property {
     let enf = Section::new(
         "enforce",
         Config { hang_secs: 60, ..Default::default() },
-        "cases: the full grid caller timeout {none, 50, 200 ms} x configured timeout {none, 50, 200 ms} x handler latency {10, 100, 300 ms} (off the exact ties) for each side against a NON-tonic peer — Server::timeout driven by a bare hyper HTTP/2 client sending grpc-timeout, and Endpoint::timeout + Request::set_timeout against a bare hyper HTTP/2 server with scripted latency (so that one side's enforcement cannot mask the other's) — plus a tonic-to-tonic pass for the caller-visible status text; in-memory pipes, paused clock (exact virtual durations); oracle: latency below the shorter deadline => the real answer at t = latency; above => CANCELLED 'Timeout expired' at t = min(caller, configured) (+-2 ms timer granularity). Non-trivial = some deadline is set.",
+        "cases: the full grid caller timeout {none, 50, 200 ms} x configured timeout {none, 50, 200 ms} x handler latency {10, 100, 300 ms} (off the exact ties) for each side against a NON-tonic peer — Server::timeout driven by a bare hyper HTTP/2 client sending grpc-timeout, and Endpoint::timeout + Request::set_timeout against a bare hyper HTTP/2 server with scripted latency (so that one side's enforcement cannot mask the other's) — plus the same with a malformed caller value (82f, +5S, S, 9 digits, '5 S', 1e3m: ignored, the configured timeout alone decides), plus a tonic-to-tonic pass for the caller-visible status text; in-memory pipes, paused clock (exact virtual durations); oracle: latency below the shorter deadline => the real answer at t = latency; above => CANCELLED 'Timeout expired' at t = min(caller, configured) (+-2 ms timer granularity). Non-trivial = some deadline is set.",
         enf_cases(tier),
         |c: &EnfCase| format!("{c:?}"),
         enf_body,
